@@ -156,7 +156,9 @@ package hotstuffpb
 // (The sender id is not part of the wire message: it is taken from the connection.)
 //@ func TimeoutMsgToProto property C12
 //@   requires encodable(timeoutMsg.ViewSignature) && encodable(timeoutMsg.MsgSignature) && encodablesi(timeoutMsg.SyncInfo)
-//@   ensures [wire-shape] result != nil && wtm(result)
+//@   ensures [wire-shape-sync-info] result != nil && wsi(result.SyncInfo)
+//@   ensures [wire-shape-view-signature] wsig(result.ViewSig)
+//@   ensures [wire-shape-msg-signature] wsig(result.MsgSig)
 //@   ensures [view] result.View == timeoutMsg.View
 //@   ensures [view-signature] encodes(result.ViewSig, timeoutMsg.ViewSignature)
 //@   ensures [msg-signature] (result.MsgSig != nil) == (timeoutMsg.MsgSignature != nil) && (timeoutMsg.MsgSignature != nil ==> encodes(result.MsgSig, timeoutMsg.MsgSignature))
